@@ -69,6 +69,11 @@ inductive TimeOp where
   | qr (ts : Option Ts) (timeHint other : Bool)
   /-- `add_malformed_message(gmm)`: `enabled` = malformed-messages hint bit -/
   | mm (ts : Option Ts) (enabled other : Bool)
+  /-- `add_question_response_record(const QueryResponse&)` (a directly built item: no hint filtering; an item with no
+      member at all is ignored) -/
+  | qrItem (ts : Option Ts) (other : Bool)
+  /-- `add_malformed_message(const MalformedMessage&)` -/
+  | mmItem (ts : Option Ts) (other : Bool)
   | clear
   deriving Repr
 
@@ -89,6 +94,10 @@ def stepTime (b : BlockTime) : TimeOp → BlockTime
       let e := updEarliest b ts
       if ts.isSome || other then { b with earliest := e, mms := b.mms ++ [ts] }
       else { b with earliest := e }
+  | .qrItem ts other =>
+    if ts.isSome || other then { b with earliest := updEarliest b ts, qrs := b.qrs ++ [ts] } else b
+  | .mmItem ts other =>
+    if ts.isSome || other then { b with earliest := updEarliest b ts, mms := b.mms ++ [ts] } else b
   | .clear => BlockTime.init
 
 def runTime (b : BlockTime) (ops : List TimeOp) : BlockTime := ops.foldl stepTime b
